@@ -11,11 +11,14 @@ Definition bytes := list byte.
 
 Definition byte_eqb (a b : byte) : bool := N.eqb (Byte.to_N a) (Byte.to_N b).
 
+(* linear-time reverse (List.rev is quadratic); rev_alt : rev l = rev_append l [] *)
+Definition frev {A} (l : list A) : list A := rev_append l [].
+
 (* ---- splitting ---- *)
 Fixpoint split_on_aux (sep : byte) (cur : bytes) (bs : bytes) : list bytes :=
   match bs with
-  | [] => [rev cur]
-  | c :: r => if byte_eqb c sep then rev cur :: split_on_aux sep [] r
+  | [] => [frev cur]
+  | c :: r => if byte_eqb c sep then frev cur :: split_on_aux sep [] r
               else split_on_aux sep (c :: cur) r
   end.
 Definition split_on (sep : byte) (bs : bytes) : list bytes := split_on_aux sep [] bs.
